@@ -324,6 +324,9 @@ func main() {
 		if mut == "payload_null" {
 			tags = append(tags, "payload=nonobject")
 		}
+		if os.Getenv("VERIF_SELFTEST") != "" && w.Len() == 7 {
+			obs = emit.Ctor("OOut", "(Reject EOther)") // harness self-test: a wrong observation must be flagged
+		}
 		in := emit.Ctor("IIDToken", v.Coq(), ks.Coq(), t.Coq(), m.Coq(), atk, emit.Z(t0), emit.Z(t1))
 		w.Add(emit.Case{Input: in, Observed: obs, Tags: tags,
 			Human: map[string]any{"token": t.Raw, "access_token": at, "claims": c, "verifier": v}})
